@@ -218,6 +218,11 @@ partial def runEmit (cfg : Config) (env : Env) (out : IO.FS.Stream) (m : M) (fue
     let n0 := m.st.ops.length
     -- hypothesis (b) of C01_step, checked on every step of every trace
     if m.st.pots_.isSome && m.st.betCollection then out.putStrLn "A frozen-collect"
+    -- hypothesis (d) of C06_step (`DrawInRange`), checked on every step of every trace
+    match m.ctl, m.st.streetIndex with
+    | .opDraw _ :: _, some si =>
+      if !(decide (si.toNat < m.st.discarded.length)) then out.putStrLn "A draw-out-of-range"
+    | _, _ => pure ()
     let m' := M.step cfg env m
     if m'.st.ops.length > n0 then
       match m'.st.ops.head? with
